@@ -7,7 +7,7 @@ from typing import Dict, List, Optional, Tuple
 
 from .. import rx
 from ..collect import Path, callee_is, run_paths
-from ..common import calls_in, construct, where
+from ..common import unit_inline, calls_in, construct, where
 from ..flow import NONE, Value, show, subterms
 from ..fold import Folder, NotConst
 from ..loader import AnalysisError, ClassInfo, FuncInfo, Program, walk_shallow
@@ -36,6 +36,9 @@ def _clamped(b: Value, BUF: Value):
                     and inner[3][0] == "call" and inner[3][1] == ("builtin", "len") and inner[3][2] == (("attr", ("param", "self"), "boundary"),):
                 return x[3][1], has_ln
     return None
+
+
+_REQ_UNIT = unit_inline(("baize.requests", "baize.wsgi.requests", "baize.asgi.requests"), ("stream", "body", "json", "form", "close", "is_disconnected", "__init__", "__call__"))
 
 
 def _pending_bound(bound: Value, pa, BUF: Value):
@@ -343,8 +346,13 @@ def run(p: Program, rep: Report, tier: str) -> None:
         if not rc:
             rep.violation("R1.4", construct(fn, text="receive_data"), where(fn), f"{name}: chunks are not fed to the decoder")
         ret = [n for n in walk_shallow(fn.node) if isinstance(n, ast.Return)]
-        appended = {e.text.split(".append(")[0] for e in eff if e.kind == "call" and ".append((field_name" in e.text}
-        if not (ret and isinstance(ret[-1].value, ast.Name) and appended == {"items"}):
+        # what is returned is the list the parts are appended to: a local, or an attribute of a holder object
+        from .mp_iter import iteration as _iteration
+        _it = _iteration(p, fn)
+        item_names = {k for k, v_ in _it.roles.items() if v_ == "items"} | {"items"}
+        ret_txt = ast.unparse(ret[-1].value).replace(".", "__") if ret and ret[-1].value is not None else ""
+        appends_items = any(k == "call" and t.startswith("items.append((field_name") for pa_ in _it.paths for k, t, _v in pa_.effects)
+        if not (ret and (ret_txt in item_names) and appends_items):
             rep.violation("R1.4", construct(fn, text="return"), where(fn), f"{name}: does not return the accumulated items")
     if tier_a_equal(hs["parse_stream"], hs["parse_async_stream"]):
         rep.ok("R1.4", "parse_stream and parse_async_stream are equal after removing async/await and mapping awrite/aseek")
@@ -375,7 +383,7 @@ def run(p: Program, rep: Report, tier: str) -> None:
         rep.analysed(form.fq, pm.fq)
         # decided on the paths of the form accessor (private helpers such as _parse_multipart inlined): the one call of the
         # stream helper of this interface and what it is given
-        fpaths, fcol, _fit = run_paths(p, form, req)
+        fpaths, fcol, _fit = run_paths(p, form, req, inline=_REQ_UNIT)
         rep.cfg_paths += len(fpaths)
         OPT = ("attr", ("attr", ("param", "self"), "content_type"), "options")
         seen_call = False
@@ -486,6 +494,19 @@ def last_newline_shape(p: Program, rep: Report, rule: str) -> None:
         if v[0] == "call" and v[1] == ("builtin", "min") and len(v[2]) == 2:
             ks = tuple(sorted(k for k in (kind(v[2][0]), kind(v[2][1])) if k))
             seen.add(ks)
+        elif v[0] == "call" and v[1] == ("builtin", "min") and len(v[2]) == 1 and v[2][0][0] == "comp" and dict(v[3]).get("default") is not None:
+            # min([i for i in (rfind(LF), rfind(CR)) if i != -1], default=len(buffer)): the indexes that exist, else the length
+            c_ = v[2][0]
+            src_ = c_[3]
+            kinds_ = tuple(sorted(k for k in (kind(x) for x in (src_[1] if src_[0] in ("tuple", "list") else ())) if k))
+            el_ok = c_[2] == ("elem", src_)
+            conds_ = [show(x) for x in c_[4]]
+            filt_ok = len(c_[4]) == 1 and any(t in conds_[0] for t in ("!= -1", ">= 0", "> -1", "== -1")) and "elem(" in conds_[0]
+            if kinds_ == ("CR", "LF") and el_ok and filt_ok and kind(dict(v[3])["default"]) == "LEN" and all(x[1][2] == "rfind" for x in src_[1]):
+                seen.update({("CR", "LF"), ("LEN", "LF"), ("CR", "LEN"), ("LEN", "LEN")})
+            else:
+                rep.undecide(rule, f"last_newline: min(..., default=...) in an unrecognised form: {show(v)[:90]}")
+                seen.add(("bad",))
         elif v[0] == "call" and v[1] == ("builtin", "max"):
             rep.violation(rule, construct(ln, text="max(last_nl, last_cr)"), where(ln), "last_newline returns the LATER of the last CR / last LF: a delimiter whose CR is already buffered is emitted as data when the LF arrives in the next chunk")
             seen.add(("bad",))
